@@ -388,6 +388,19 @@ TEMP_AB = {
     ("TF_fahrenheit_to_kelvin", "TF_fahrenheit_to_kelvin"): (16, 11521),
 }
 TEMP_VMAX = _Fr(2) ** 1000
+# C17_composition_float_temperature: |fl(A>B>C) - fl(A>C)| <= 2^-53 * (1 + 1/1024) * (A*|v| + B), by (A, B, C) kinds
+_TK = {"K": "TF_kelvin_to_kelvin", "C": "TF_celsius_to_kelvin", "F": "TF_fahrenheit_to_kelvin"}
+TCOMP_AB = {(_TK[k[0]], _TK[k[1]], _TK[k[2]]): ab for k, ab in {
+    "KKK": (0, 1), "KKC": (2, 547), "KKF": (15, 3998),
+    "KCK": (2, 274), "KCC": (4, 820), "KCF": (18, 4490),
+    "KFK": (8, 2037), "KFC": (10, 2584), "KFF": (29, 7664),
+    "CKK": (2, 547), "CKC": (4, 1640), "CKF": (18, 8915),
+    "CCK": (4, 1367), "CCC": (6, 2459), "CCF": (22, 10390),
+    "CFK": (10, 4769), "CFC": (12, 5861), "CFF": (33, 16514),
+    "FKK": (5, 689), "FKC": (6, 1817), "FKF": (16, 9427),
+    "FCK": (6, 1544), "FCC": (7, 2672), "FCF": (18, 10966),
+    "FFK": (9, 5053), "FFC": (10, 6181), "FFF": (24, 17282),
+}.items()}
 
 
 def _finite(bits):
@@ -439,8 +452,13 @@ def proved_comp_bound(us, vbits, r3bits):
     """bound on |fl(A>B>C) - fl(A>C)| (C17_composition_float_table), or (None, why)"""
     if not _finite(vbits) or not _finite(r3bits):
         return None, "non-finite value"
+    if all(u["kind"] == "temperature" for u in us):
+        ab = TCOMP_AB.get(tuple(temp_key(u) for u in us))
+        if ab is None or abs(_exact(vbits)) > TEMP_VMAX:
+            return None, "temperature function not identified"
+        return U53 * (1 + _Fr(1, 1024)) * (ab[0] * abs(_exact(vbits)) + ab[1]), "C17_composition_float_temperature"
     if any(u["kind"] == "temperature" for u in us):
-        return None, "temperature kind (composition not proved in binary64)"
+        return None, "temperature mixed with another kind"
     av = abs(_exact(vbits))
     if av == 0:
         return _Fr(0), "zero (exact)"
@@ -607,6 +625,14 @@ def law_search(tb, impl, res, rng, tier, known, pool=None):
                 for _ in range(nx):
                     v = special_magnitude(rng, u["kind"] == "temperature" and x["kind"] == "temperature")
                     plan_pair.append((u, x, rng.choice(usable(u)), rng.choice(usable(x)), f2b(v)))
+        for u in us:
+            for x in us:
+                for y in us:
+                    if x is u or y is x or not (usable(u) and usable(x) and usable(y)):
+                        continue
+                    for _ in range(max(1, nx // 6)):
+                        v = special_magnitude(rng, all(z["kind"] == "temperature" for z in (u, x, y)))
+                        plan_triple.append((u, x, y, rng.choice(usable(u)), rng.choice(usable(x)), rng.choice(usable(y)), f2b(v)))
     L.kind_pairs = {}
     for u, x, _a, _b, _v in plan_pair:
         k = "%s>%s" % (u["kind"], x["kind"])
@@ -682,7 +708,7 @@ def law_search(tb, impl, res, rng, tier, known, pool=None):
                     "theorem": why},
                    [(a, b, v), (b, a, r1)])
     # ---- L5 composition A->B->C = A->C: proved bound (qq^6 - 1) * |fl(A->C)| for linear/reciprocal units;
-    #      temperature triples: tested only, old absolute tolerance
+    #      temperature triples: proved absolute bound tcomp_bound
     for u, x, y, a, b, cc, v in plan_triple:
         L.count("composition")
         r1 = ok_bits(impl.get(a, b, v))
@@ -887,6 +913,26 @@ def run_builtin_stream(h, res, tb):
     return out
 
 
+def check_bound_tables(res):
+    """the constants of the proved temperature bounds, printed by Coq (UnitsFloat2.v temp_tables / tcomp_tables), must be
+    the tolerances this check uses (TEMP_AB / TCOMP_AB)"""
+    order = ["TF_kelvin_to_kelvin", "TF_celsius_to_kelvin", "TF_fahrenheit_to_kelvin"]
+    want1 = [str(x) for a in order for b in order for x in TEMP_AB[(a, b)]]
+    want2 = [str(x) for a in order for b in order for d in order for x in TCOMP_AB[(a, b, d)]]
+    try:
+        mo = c.coq_eval_batch(REQS + ["Blots.proofs.UnitsFloat", "Blots.proofs.UnitsFloat2"], "",
+                              ["join_comma (map show_Z temp_tables)", "join_comma (map show_Z tcomp_tables)"], "c17t")
+    except c.BrokenTie as e:
+        res.tie_broken(e.what, e.detail)
+        return None
+    ok = mo[0] == ",".join(want1) and mo[1] == ",".join(want2)
+    if not ok:
+        res.tie_broken("the temperature tolerances of the implementation-level search (checks/c17.py TEMP_AB / TCOMP_AB) are "
+                       "not the constants of the proved bounds (UnitsFloat2.v temp_AZ/temp_BZ/tcomp_AZ/tcomp_BZ)",
+                       "coq: %r / %r" % (mo[0], mo[1]))
+    return ok
+
+
 # ----------------------------------------------------------------------------- known findings
 def replay_known(e, impl, h):
     """re-run the witness of an open known finding on the implementation; True = still reproduces"""
@@ -999,6 +1045,7 @@ def main(argv):
         res.tie_broken("correspondence C17/BUILTIN: model and implementation disagree on %d of %d argument tuples"
                        % (len(bs["mism"]), bs["cases"]), "first: %s model=%s impl=%s" % ([x[0] for x in cs], m, o))
 
+    tables_ok = check_bound_tables(res)
     # ---- the laws on the implementation alone (always run)
     L = law_search(tb, impl, res, rng, tier, known, rs["pool"])
     c.log("BUILTIN stream + law search %.1fs" % (time.time() - t0))
@@ -1045,7 +1092,9 @@ def main(argv):
                                         ", ".join("%s>%s:%s" % (k[0][3:4].upper(), k[1][3:4].upper(), v) for k, v in sorted(TEMP_AB.items())) +
                                         "  (C17_there_and_back_float_temperature)",
                                     "composition linear/reciprocal": "|fl(A>B>C)-fl(A>C)| <= (qq^6 - 1)|fl(A>C)|  (C17_composition_float_table)",
-                                    "composition temperature": "NOT proved in binary64: 6 ulp or 8*ulp(9*max(|x|,1000)) absolute",
+                                    "composition temperature": "|fl(A>B>C)-fl(A>C)| <= 2^-53 (1+1/1024)(A|v|+B), 27 (A,B) pairs "
+                                                               "(checks/c17.py TCOMP_AB = UnitsFloat2.v tcomp_A/tcomp_B)  (C17_composition_float_temperature)",
+                                    "temperature constants equal the Coq tables (checked by vm_compute this run)": tables_ok,
                                     "decided_by": L.tol,
                                     "largest observed error / proved bound": L.tol_ratio,
                                     "there-and-back pairs by kind": getattr(L, "kind_pairs", {})}}
